@@ -4,7 +4,8 @@
 //! (2) runs the real `<ServerWorker as Future>::poll` natively with scripted services and factories.
 //!
 //! worker schedule line:  S=<services> timeout=<ms> | <op>*
-//!   ops: conn:<token>  finish:<k>  stop:<0|1>  tick:<ms>  poll:<a>,<a>,..   (a = answers consumed, in order, by
+//!   ops: conn:<token> (= send + inc, the order is the accept thread's business)  send:<token> (enqueue only)  inc (count only)
+//!        close (the accept thread is gone: every connection sender is dropped)  finish:<k>  stop:<0|1>  tick:<ms>  poll:<a>,<a>,..   (a = answers consumed, in order, by
 //!        poll_ready (o = Ready(Ok), p = Pending, e = Ready(Err)) and by restart futures (c = created, w = Pending))
 //! trace: events separated by spaces; after every poll "P=<pending|ready>,total=<n>,q=<queued>,tx=<none|true|false>"
 use super::*;
@@ -29,6 +30,7 @@ pub(crate) fn mk_handles(idx: usize, limit: usize, waker_queue: WakerQueue) -> (
 }
 
 pub(crate) fn total(c: &Counter) -> usize { c.counter.load(Ordering::SeqCst) }
+pub(crate) fn stop_parts(s: Stop) -> (bool, oneshot::Sender<bool>) { (s.graceful, s.tx) }
 
 #[derive(Default)]
 struct Shared { answers: VecDeque<char>, log: Vec<String>, guards: Vec<(usize, WorkerCounterGuard)>, gens: Vec<usize> }
@@ -87,7 +89,7 @@ pub(crate) fn run(line: &str) -> String {
     let sh: Sh = Rc::new(RefCell::new(Shared { gens: vec![0; ns], ..Default::default() }));
     let poll = mio::Poll::new().unwrap();
     let wq = WakerQueue::new(poll.registry()).unwrap();
-    let (conn_tx, conn_rx) = unbounded_channel::<Conn>();
+    let (conn_tx, conn_rx) = unbounded_channel::<Conn>(); let mut conn_tx = Some(conn_tx);
     let (stop_tx, stop_rx) = unbounded_channel::<Stop>();
     let counter = Counter::new(1 << 20);
     let services: Vec<(usize, usize, BoxedServerService)> = (0..ns).map(|i| (i, i, Box::new(ScriptSvc { id: i, gen: 0, sh: sh.clone() }) as BoxedServerService)).collect();
@@ -106,8 +108,13 @@ pub(crate) fn run(line: &str) -> String {
     let r = std::panic::catch_unwind(std::panic::AssertUnwindSafe(|| {
         for op in sched.split_whitespace() {
             if let Some(t) = op.strip_prefix("conn:") {
-                let _ = conn_tx.send(Conn { io: MioStream::Tcp(mio::net::TcpStream(next_sid)), token: t.parse().unwrap() });
+                if let Some(tx) = conn_tx.as_ref() { let _ = tx.send(Conn { io: MioStream::Tcp(mio::net::TcpStream(next_sid)), token: t.parse().unwrap() }); }
                 counter.inc(); next_sid += 1;
+            } else if let Some(t) = op.strip_prefix("send:") {
+                if let Some(tx) = conn_tx.as_ref() { let _ = tx.send(Conn { io: MioStream::Tcp(mio::net::TcpStream(next_sid)), token: t.parse().unwrap() }); }
+                next_sid += 1;
+            } else if op == "inc" { counter.inc();
+            } else if op == "close" { conn_tx = None;
             } else if let Some(k) = op.strip_prefix("finish:") {
                 let (sid, g) = sh.borrow_mut().guards.remove(k.parse().unwrap()); drop(g);
                 sh.borrow_mut().log.push(format!("finished:{}", sid));
